@@ -10,6 +10,7 @@
      empty cache, the call (a,t) gets the verdict "not allowed";
    - [last_on_slot h n s pre]: the most recent call of [pre] whose address hashes to slot s. *)
 From V Require Import Model.RateCache Model.Server Proofs.RateCache Proofs.Server.
+From V Require Import Gen.ConstServer.
 
 (* Every history runs without panic and yields one verdict per call
    (the only indexing, `elements[index]`, is in range because index = hash mod len). *)
@@ -101,6 +102,12 @@ Proof.
   split; [vm_compute; reflexivity|]. split; [|vm_compute; reflexivity].
   exists [true; false]. split; vm_compute; reflexivity.
 Qed.
+
+(* census, regenerated from the sources on every run: one call of intended_action per datagram, one call of
+   is_allowed (in its third branch), the slot is read and written once each, one `% len`. *)
+Example C20_site_census :
+  SRV_INTENDED_ACTION_CALLS = 1 /\ SRV_IS_ALLOWED_CALLS = 1 /\ SRV_CACHE_INDEXING = 2 /\ SRV_MODULO = 1.
+Proof. repeat split; reflexivity. Qed.
 
 Print Assumptions C20_total.
 Print Assumptions C20_refused_iff.
